@@ -1,8 +1,382 @@
 import GB.Base.Proto
+import GB.C10.Spec
+/-
+  C10 driver — judges one case line of harness/c10 (see that file for the line formats).
+    tbl <code> => <http>
+    cvt <rawerr> => <code> <msg> <letters> <http>
+    e2e rpc= inj= err= gone= ct= acc= body= rbp= tmo= n= resp= md=
+        => st= ct= xcto= body= ds= dm= hdr= trl= pm= fe= nat= tr= u8=
+-/
 namespace GB.C10
 open GB GB.Proto
 
-/-- stub: replaced when the C10 slice is built -/
-def handle : Handler := fun _ _ => "BAD c10 unimplemented"
+/-! ### small parsers -/
+
+def kv? (key tok : String) : Option String :=
+  let p := key ++ "="
+  if tok.startsWith p then some ((tok.drop p.length).toString) else none
+
+def hexList? (s : String) : Option (List Bytes) :=
+  if s == "-" then some [] else (s.splitOn ",").mapM parseHex
+
+def hexPairs? (s : String) : Option (List (Bytes × Bytes)) :=
+  if s == "-" then some []
+  else (s.splitOn ",").mapM (fun p =>
+    match p.splitOn ":" with
+    | [k, v] => do let k ← parseHex k; let v ← parseHex v; pure (k, v)
+    | _ => none)
+
+def detailOfLetter (c : Char) : Option Detail :=
+  let id := UInt8.ofNat c.toNat
+  match c with
+  | 'r' => some ⟨.resolvable, id⟩
+  | 'q' => some ⟨.resolvable, id⟩
+  | 'u' => some ⟨.unknownType, id⟩
+  | 'm' => some ⟨.malformed, id⟩
+  | 'e' => some ⟨.noTypeURL, id⟩
+  | 'b' => some ⟨.badURL, id⟩
+  | '?' => some ⟨.badURL, id⟩   -- harness: a decoded detail that is none of the known payloads (never expected)
+  | _ => none
+
+def details? (s : String) : Option (List Detail) :=
+  if s == "-" then some [] else s.toList.mapM detailOfLetter
+
+def lettersOf (ds : List Detail) : String :=
+  if ds.isEmpty then "-" else String.ofList (ds.map (fun d => Char.ofNat d.id.toNat))
+
+def parseBase (s : String) : Option RawErr :=
+  match s.splitOn ":" with
+  | ["S", c, m, d] => do
+    let c ← c.toNat?; let m ← parseHex m; let d ← details? d
+    pure (.status ⟨c, m, d⟩)
+  | ["P", m] => do let m ← parseHex m; pure (.plain m)
+  | [b, c, m, d] =>
+    if b.startsWith "B" then do
+      let h ← (b.drop 1).toString.toNat?; let c ← c.toNat?; let m ← parseHex m; let d ← details? d
+      pure (.both h ⟨c, m, d⟩)
+    else none
+  | _ => none
+
+def applyWrappers : List String → RawErr → Option RawErr
+  | [], e => some e
+  | w :: rest, e => do
+    let inner ← applyWrappers rest e
+    if w.startsWith "H" then do
+      let h ← (w.drop 1).toString.toNat?
+      pure (.http h inner)
+    else if w.startsWith "W" then do
+      let p ← parseHex (w.drop 1).toString
+      pure (.wrapf p inner)
+    else none
+
+def parseRawErr (s : String) : Option RawErr :=
+  let parts := s.splitOn "/"
+  match parts.getLast? with
+  | none => none
+  | some b => do
+    let e ← parseBase b
+    applyWrappers parts.dropLast e
+
+def showSt (st : St) : String := s!"{st.code}:{toHex st.msg}:{lettersOf st.details}"
+
+def showOptBytes : Option Bytes → String
+  | none => "-"
+  | some b => toHex b
+
+def showMD (md : MD) : String :=
+  if md.isEmpty then "-"
+  else ",".intercalate (md.map (fun p => toHex p.1 ++ ":" ++ "|".intercalate (p.2.map toHex)))
+
+def parseMD? (s : String) : Option MD :=
+  if s == "-" then some []
+  else (s.splitOn ",").mapM (fun p =>
+    match p.splitOn ":" with
+    | [k, vs] => do
+      let k ← parseHex k
+      let vs ← (vs.splitOn "|").mapM parseHex
+      pure (k, vs)
+    | _ => none)
+
+def sameMD (a b : MD) : Bool :=
+  a.length == b.length && a.all (fun p => (b.find? (fun q => q.1 == p.1)).map (·.2) == some p.2)
+
+/-! ### tbl / cvt -/
+
+def handleTbl (c out : String) : String :=
+  match c.toNat?, out.toNat? with
+  | some c, some o =>
+    let m := httpStatusFromCode c
+    if c < 17 && o != canonicalHttp c then s!"VIOL table code={c} impl={o} canonical={canonicalHttp c} model={m}"
+    else if o != m then s!"DIFF model={m}"
+    else s!"OK nt b=tbl"
+  | _, _ => "BAD tbl"
+
+def handleCvt (e : String) (out : List String) : String :=
+  match parseRawErr e, out with
+  | some e, [c, m, d, h] =>
+    let (st, hs) := errorStatus e
+    let model := s!"{st.code} {toHex st.msg} {lettersOf st.details} {hs}"
+    let impl := s!"{c} {m} {d} {h}"
+    let kind := match e with
+      | .status _ => "status" | .plain _ => "plain" | .both _ _ => "both" | .http _ _ => "http" | .wrapf _ _ => "wrapf"
+    -- the specification is judged on the code the implementation's status.Convert produced
+    let want := match explicitOf e with
+      | some x => x
+      | none => canonicalHttp (c.toNat?.getD 99)
+    if h != toString want then s!"VIOL errorStatus http impl={h} want={want} (explicit or canonical for code {c}) model={hs}"
+    else if impl != model then s!"DIFF model={model}"
+    else s!"OK nt b=cvt.{kind}"
+  | _, _ => "BAD cvt"
+
+/-! ### e2e -/
+
+structure Obs where
+  status : Nat
+  ct : Option (List Bytes)
+  xcto : Option (List Bytes)
+  body : Bytes
+  ds : Option St
+  dm : String
+  hdr : MD
+  trl : MD
+  fe : Option (St × Nat)
+  u8 : Option Bool
+
+def parseSt? (s : String) : Option (Option St) :=
+  if s == "-" then some none
+  else match s.splitOn ":" with
+    | [c, m, d] => do
+      let c ← c.toNat?; let m ← parseHex m; let d ← details? d
+      pure (some ⟨c, m, d⟩)
+    | _ => none
+
+def parseFe? (s : String) : Option (Option (St × Nat)) :=
+  if s == "-" then some none
+  else match s.splitOn ":" with
+    | [c, m, d, h] => do
+      let c ← c.toNat?; let m ← parseHex m; let d ← details? d; let h ← h.toNat?
+      pure (some (⟨c, m, d⟩, h))
+    | _ => none
+
+def optHexList? (s : String) : Option (Option (List Bytes)) :=
+  if s == "-" then some none else (hexList? s).map some
+
+def parsePM? (s : String) : Option (List (Option Bytes)) :=
+  if s == "-" then some []
+  else (s.splitOn ",").mapM (fun p => if p == "!" then some none else (parseHex p).map some)
+
+def parseNat? (s : String) : Option (Option RawErr) :=
+  if s == "-" then some none
+  else match s.splitOn ":" with
+    | [d, c, m] => do
+      let c ← c.toNat?; let m ← parseHex m
+      pure (some (if d == "1" then .status ⟨c, m, []⟩ else .plain m))
+    | _ => none
+
+/-- recorded Transcode calls of the bound response transcoder: (kind, ok?, bytes) -/
+def parseTr? (s : String) : Option (List (String × Bool × Bytes)) :=
+  if s == "-" then some []
+  else (s.splitOn ",").mapM (fun p =>
+    match p.splitOn ":" with
+    | [k, r, h] => do let b ← parseHex h; pure (k, r == "ok", b)
+    | _ => none)
+
+def parseRpc? : String → Option Rpc
+  | "u" => some .unary | "s" => some .serverStream | "c" => some .clientStream
+  -- upper case: the harness ran the request through a real net/http server (same expected response)
+  | "U" => some .unary | "S" => some .serverStream | "C" => some .clientStream | _ => none
+
+def parseInj? : String → Option Inj
+  | "none" => some .none | "router" => some .router | "bind" => some .bind | "decode" => some .decode
+  | "create" => some .create | "target" => some .target | "deadline" => some .deadline | _ => none
+
+def showOrigin : Option Origin → String
+  | none => "success"
+  | some .router => "router" | some .bind => "bind" | some .requestDecode => "decode" | some .streamCreate => "create"
+  | some .targetStatus => "target" | some .deadline => "deadline" | some .bridge => "bridge" | some .responseEncode => "encode"
+
+def noRecord : Bytes := ascii "<no record>"
+
+/-- expected decoding of one transcoded response value -/
+def showValue (sel : Selected) (ra rb : Bytes) : String :=
+  match sel with
+  | .whole => s!"m:{toHex ra}:{toHex rb}"
+  | .field f =>
+    if f == ascii "resource_name" then s!"s:{toHex ra}"
+    else if f == ascii "owner" then s!"s:{toHex rb}"
+    else "s:x"
+
+/-- expected decoding of a streamed body: framing (newline-delimited values / SSE records) and the values -/
+def showItems (sel : Selected) (cnt : Nat) (sse : Bool) (ra rb : Bytes) : String :=
+  (if sse then "sse|" else "nl|") ++ ";".intercalate (List.replicate cnt (showValue sel ra rb))
+
+def handleE2E (i o : List String) : String :=
+  match i, o with
+  | [rpc, inj, err, gone, _ct, acc, body, rbp, tmo, n, resp, md],
+    [st, ct, xcto, obody, ds, dm, hdr, trl, pm, fe, nat, tr, u8] =>
+    let parsed : Option (Scenario × Env × Obs × Bytes × Bytes × String × Option (String × Bool × Bytes)) := do
+      let rpc ← (kv? "rpc" rpc) >>= parseRpc?
+      let inj ← (kv? "inj" inj) >>= parseInj?
+      let errS ← kv? "err" err
+      let e ← if errS == "-" then some (RawErr.plain []) else parseRawErr errS
+      let gone ← kv? "gone" gone
+      let acc ← (kv? "acc" acc) >>= hexList?
+      let body ← (kv? "body" body) >>= parseHex
+      let rbp ← (kv? "rbp" rbp) >>= parseHex
+      let tmo ← kv? "tmo" tmo
+      let n ← (kv? "n" n) >>= String.toNat?
+      let resp ← kv? "resp" resp
+      let (ra, rb) ← match resp.splitOn "/" with
+        | [a, b] => do let a ← parseHex a; let b ← parseHex b; pure (a, b)
+        | _ => none
+      let md ← kv? "md" md
+      let (h, t, ah, at_, ph, pt) ← match md.splitOn "/" with
+        | [h, t, ah, at_, ph, pt] => do
+          let h ← hexPairs? h; let t ← hexPairs? t; let ah ← hexList? ah; let at_ ← hexList? at_
+          let ph ← parseHex ph; let pt ← parseHex pt
+          pure (h, t, ah, at_, ph, pt)
+        | _ => none
+      -- output side
+      let ost ← (kv? "st" st) >>= String.toNat?
+      let oct ← (kv? "ct" ct) >>= optHexList?
+      let oxcto ← (kv? "xcto" xcto) >>= optHexList?
+      let obody ← (kv? "body" obody) >>= parseHex
+      let ods ← (kv? "ds" ds) >>= parseSt?
+      let odm ← kv? "dm" dm
+      let ohdr ← (kv? "hdr" hdr) >>= parseMD?
+      let otrl ← (kv? "trl" trl) >>= parseMD?
+      let pm ← (kv? "pm" pm) >>= parsePM?
+      let fe ← (kv? "fe" fe) >>= parseFe?
+      let nat ← (kv? "nat" nat) >>= parseNat?
+      let tr ← (kv? "tr" tr) >>= parseTr?
+      let u8 ← kv? "u8" u8
+      let deadlineOn := inj == .deadline
+      let sc : Scenario := {
+        rpc := rpc, inj := inj, err := e, gone := gone == "1", accept := acc, bodyEmpty := body.isEmpty, rbp := rbp, n := n,
+        hdr := if deadlineOn then [] else mdOfPairs h, trl := if deadlineOn then [] else mdOfPairs t,
+        allowH := ah, allowT := at_, prefH := ph, prefT := pt }
+      let sEnc := tr.find? (fun x => x.1 == "S")
+      let mEnc := tr.find? (fun x => x.1 == "M" && x.2.1)
+      let synth : Bytes := match fe with
+        | some (s, _) => s.msg
+        | none => match ods with
+          | some s => s.msg
+          | none => []
+      let env : Env := {
+        pm := pm,
+        stEnc := fun _ => match sEnc with
+          | some (_, true, b) => .ok b
+          | some (_, false, b) => .error b
+          | none => .error noRecord,
+        msgEnc := fun _ => match mEnc with
+          | some (_, _, b) => b
+          | none => noRecord,
+        natDecode := nat, synthMsg := synth }
+      let obs : Obs := { status := ost, ct := oct, xcto := oxcto, body := obody, ds := ods, dm := odm, hdr := ohdr, trl := otrl,
+                         fe := fe, u8 := if u8 == "-" then none else some (u8 == "1") }
+      pure (sc, env, obs, ra, rb, tmo, sEnc)
+    match parsed with
+    | none => "BAD e2e fields"
+    | some (sc, env, obs, ra, rb, tmo, sRec) =>
+      if (tmo != "-") != (sc.inj == .deadline) then "BAD e2e racy scenario: tmo must be set exactly when inj=deadline" else
+      let r := serve sc env
+      -- model output, canonical
+      let wantCt : Option (List Bytes) := r.ct.map (fun c => [c])
+      let wantXcto : Option (List Bytes) := if r.nosniff then some [ascii "nosniff"] else none
+      let bodyOk : Bool := match r.body with
+        | .bytes b => obs.body == b
+        | .items sel cnt sse => obs.dm == showItems sel cnt sse ra rb
+      let gone499 := r.origin.isSome && r.status == httpStatusCanceled && r.ct.isNone
+      let sameOut := obs.status == r.status && obs.ct == wantCt && obs.xcto == wantXcto && bodyOk
+        && sameMD obs.hdr r.hdrs && sameMD obs.trl r.trls
+      -- tie of the model's control flow: the error value handed to writeError is the recorded one
+      -- (client gone: ctx.Done and the injected error race inside Forward, both end in 499)
+      let feOk : Bool := gone499 || match r.err, obs.fe, r.origin with
+        | some e, some (s, h), _ => errorStatus e == (s, h)
+        | some _, none, some .bridge => true         -- made inside ServeHTTP: not observable at a boundary
+        | some _, none, _ => false
+        | none, some _, _ => (match r.body with | .items _ _ _ => true | _ => false)   -- a stream that already started keeps its 200
+        | none, none, _ => true
+      -- tie of `encodable`: the real transcoder could encode the status iff the specification says it can
+      let negotiated : Bytes := match negotiatedResp registry env.pm sc.accept with
+        | some m => m.mime
+        | none => []
+      let encOk : Bool := match r.err, sRec with
+        | some e, some (_, ok, _) => ok == encodable negotiated (convert e)
+        | _, _ => true
+      let u8Ok : Bool := gone499 || match r.err, obs.u8 with
+        | some e, some v => validUTF8 (convert e).msg == v
+        | _, _ => true
+      -- is the rendered failure the injected error (and not a natural one that pre-empted it)?
+      let injectedRendered : Bool := match sc.inj, r.origin with
+        | .router, some .router => true
+        | .bind, some .bind => true
+        | .decode, some .requestDecode => true
+        | .create, some .streamCreate => true
+        | .target, some .targetStatus => true
+        | _, _ => false
+      -- the specification, judged on the implementation's output
+      let specViol : Option String :=
+        match r.origin, r.err with
+        | some _, some e =>
+          if gone499 then none     -- client gone: nothing is promised
+          else match failureWhy e r.bound negotiated obs.status (obs.ct.bind List.head?) obs.body ⟨obs.ds⟩ with
+          | none =>
+            (if injectedRendered && !isInfix sc.err.rawMessage (match obs.ds with | some s => s.msg | none => obs.body)
+              then some "message-not-carried" else none)
+          | some why =>
+            let st := convert e
+            some s!"failure-rendering:{why} origin={showOrigin r.origin} want-status={wantStatus e} bound={r.bound} encodable={encodable negotiated st} negotiated={bytesToString negotiated} code={st.code} msg={toHex st.msg}"
+        | _, _ =>
+          if obs.status != 200 then some "success-status"
+          else match r.body with
+            | .bytes _ =>
+              if r.ct.isSome then
+                match traverseFieldPath respFields sc.rbp with
+                | some sel => if obs.ct == some [negotiated] && obs.dm == showValue sel ra rb then none else some "success-body"
+                | none => none
+              else none
+            | .items sel cnt sse =>
+              if obs.ct == some [negotiated] && obs.dm == showItems sel cnt sse ra rb then none else some "stream-body"
+      -- 415: an unsupported Content-Type (no line names a registered type) is answered with 415
+      let spec415 : Option String :=
+        if sc.inj != .router && sc.inj != .bind && !env.pm.isEmpty && (negotiatedReq registry env.pm).isNone && obs.status != 415
+        then some "unsupported-content-type-not-415" else none
+      let specDeadline : Option String :=
+        if sc.inj == .deadline && r.origin == some .deadline && obs.status != 504 then some "deadline-not-504" else none
+      -- allow-listed headers (and, before the first byte, trailers) appear as HTTP headers
+      let specHdr : Option String :=
+        if r.origin == some .targetStatus || (r.origin.isNone && sc.rpc == .unary) then
+          let wantH := sc.allowH.filter (fun k => !(mdGet sc.hdr (lower k)).isEmpty)
+          let missH := wantH.any (fun k =>
+            !(mdGet sc.hdr (lower k)).all (fun v => (mdGet obs.hdr (canonicalHeaderKey (lower (sc.prefH ++ k)))).contains v))
+          let trailersAsHeaders := sc.n ≤ 1
+          let wantT := sc.allowT.filter (fun k => !(mdGet sc.trl (lower k)).isEmpty)
+          let missT := trailersAsHeaders && wantT.any (fun k =>
+            !(mdGet sc.trl (lower k)).all (fun v => (mdGet obs.hdr (canonicalHeaderKey (lower (sc.prefT ++ k)))).contains v))
+          if missH then some "allow-listed-header-missing" else if missT then some "allow-listed-trailer-missing" else none
+        else none
+      let viol := [specViol, spec415, specDeadline, specHdr].filterMap id
+      let branch := s!"b={showOrigin r.origin}" ++
+        (match r.origin, r.err with
+         | some _, some e =>
+           if gone499 then ".gone" else if !r.bound then ".text" else if encodable negotiated (convert e) then ".status" else ".fallback"
+         | _, _ => "")
+      let modelStr := s!"st={r.status} ct={showOptBytes r.ct} nosniff={r.nosniff} body={match r.body with | .bytes b => toHex b | .items _ c _ => s!"items:{c}"} hdr={showMD r.hdrs} trl={showMD r.trls} err={match r.err with | some e => showSt (convert e) | none => "-"}"
+      match viol with
+      | v :: _ => s!"VIOL {v} model: {modelStr}"
+      | [] =>
+        if !sameOut then s!"DIFF model: {modelStr}"
+        else if !feOk then s!"DIFF final-error model: {modelStr}"
+        else if !encOk then s!"DIFF encodable model: {modelStr}"
+        else if !u8Ok then "DIFF utf8-validity"
+        else s!"OK nt {branch}"
+  | _, _ => "BAD e2e arity"
+
+def handle : Handler
+  | ["tbl", c], [out] => handleTbl c out
+  | "cvt" :: [e], out => handleCvt e out
+  | "e2e" :: i, o => handleE2E i o
+  | _, _ => "BAD c10 line"
 
 end GB.C10
